@@ -33,6 +33,8 @@ def run(ctx):
         parts = [gen.jdump(v) for v in vals]
         if noisy and parts: parts.insert(rnd.randint(0, len(parts)), b'} x')
         data = b''
+        # a byte order mark or other bytes that are not JSON at the very start are noise like any other, on standard input and in a file alike
+        if rnd.random() < 0.15: data = rnd.choice([b'\xef\xbb\xbf', b'\xef\xbb\xbf\n', b'\xff\xfe', b'\xef\xbb', b'#!x\n']); noisy = True
         for p in parts: data += p + rnd.choice([b'\n', b' ', b'\n\n', b'\t', b' \n '])
         cfg = lib.new_cfg(select=['.a'] + rnd.sample(CTXSEL, rnd.randint(2, 6))) if rnd.random() < 0.7 else gen.pipeline_cfg(rnd)
         if rnd.random() < 0.2: cfg['only_objs'] = True
@@ -59,6 +61,8 @@ def run(ctx):
         for t, g in enumerate(groups):
             sc = {'id': 'S%d_%d' % (i, t), 'cfg': fc['cfg'], 'files': True, 'inputs': [{'data': g, 'name': 'in%d_%d.json' % (i, t)}]}
             cases.append(sc); meta[sc['id']] = ('single', fc['cfg'], g, t)
+            if not any('&file-name' in x for x in fc['cfg']['select']):
+                ic = mkcase('I%d_%d' % (i, t), fc['cfg'], g); cases.append(ic); meta[ic['id']] = ('asstdin', fc['cfg'], g, sc['id'])
     # inputs larger than any internal buffer (8 KiB, 64 KiB), whole and in large uneven reads: tokens straddle every block boundary.
     # The extracted model is too slow for these sizes; the oracle is locality (C11): the output of the whole input is the
     # concatenation of the outputs of its pieces, each piece (cut between tokens) small enough to fit in any buffer
@@ -124,6 +128,12 @@ def run(ctx):
                 if bad: violations.append(viol(c0, bad, json.dumps(r), 'row %d' % t)); break
     for c in cases:
         m = meta[c['id']]; a = impl[c['id']]
+        if m[0] == 'asstdin':
+            f = impl[m[3]]; checked += 1
+            if (lib.kind(a), lib.canon_errlines(a['stdout'])) != (lib.kind(f), lib.canon_errlines(f['stdout'])):
+                v = viol(c, 'the same bytes given as a file argument and on standard input give the same output (positions, indices, rows)', f['stdout'].decode('utf8', 'replace')[:400], a['stdout'].decode('utf8', 'replace')[:400])
+                v['as_file_vs_stdin'] = True; violations.append(v)
+            continue
         if m[0] != 'files' or a['result'] != 'ok': continue
         i = c['id'][1:]
         singles = [impl['S%s_%d' % (i, t)] for t in range(len(m[2]))]
